@@ -95,12 +95,18 @@ CLAIMED = {
              "arbitrary bytes and re-serializes to a prefix of the block (parse_sound). The name-, const- and enum-keyed mappings are re-keyings of "
              "each other with Python dict semantics for duplicates (const-keyed under a stated no-mixed-36 hypothesis), raw and pretty agree off the "
              "generated SETTING_TO_PRETTYFUNC key set, SHORT/INT are unsigned 16/32-bit, the name key is injective, unknown indices get a synthetic "
-             "name and index 36 is named by its type.",
+             "name and index 36 is named by its type. iter_settings, BeaconConfig.__init__, settings_map, setting_enums, max_setting_enum and the bodies of "
+             "the four view properties are translated from their source text on every run (tools/gen/py_beaconcfg.py -> Gen/PyBeaconCfg.lean) and "
+             "proved equal to the model for every bytes/BytesIO argument, every settings list and arbitrary index_type/pretty/parse values "
+             "(C02Gen.gen_*, 16 theorems; parse_serialize, parse_sound, truncated_drops_partial, useragent_continuation, views_agree restated for the "
+             "translated definitions).",
         note="Enum tables, struct layout and the pretty-function key set are regenerated by introspection (tools/gen/beacon.py) and pinned by decide "
              "obligations. Pretty-function content is an abstract, possibly raising parameter (C03's subject); dissect.cstruct/BytesIO/dict semantics "
              "are modelled, not verified; view caching is C14's subject. Tied to the code by ~48k/~300k in-process comparisons plus an independent "
              "Python TLV decoder as oracle.",
-        design="§4 C02",
+        design="§4 C02, §12.4",
+        technique="Lean 4 theorems about an executable model; model tied to the code by source-to-Lean translation (proved equal) and by a "
+                  "model/implementation correspondence check",
     ),
     "C03": dict(
         text="Lean 4 round-trip theorems for every structured-setting decoder: for all well-formed transform/recover programs over the full opcode "
@@ -127,12 +133,18 @@ CLAIMED = {
              "(chain_inverse), and for every valid program (static decorations, any number of build blocks whose placements are not overwritten, "
              "client and server/int-argument form), all payloads, all mask values and any initial request, recover(transform(d)) = d "
              "(recover_transform_partial, recover_transform_server); library-encoded messages decode with an independent reference decoder and "
-             "reference-encoded (unpadded base64url) messages are recovered by the library (ref_decodes_model, model_decodes_ref).",
+             "reference-encoded (unpadded base64url) messages are recovered by the library (ref_decodes_model, model_decodes_ref). "
+             "HttpDataTransform.__init__, .transform and .recover are translated from their source text on every run (tools/gen/py_c2t.py -> "
+             "Gen/PyC2T.lean; base64 and getrandbits as parameters) and proved equal to the model for every step list of the explicit domain "
+             "C04Gen.stepsOf (ASCII step names in any case - the step.lower() classification is proved), every mask stream, payload, request and "
+             "response (C04Gen.gen_http_data_transform_init, gen_transform, gen_recover; recover_transform_partial and the server round trip restated).",
         note="Partial in one point: uri-append with a non-empty initial URI is the recorded known finding C04-uri-append-initial-uri; the full "
              "statement is kept as recover_transform_full and proved false at a concrete witness. CPython base64/partition/dict, struct.pack and the "
              "C20 xor/netbios models are modelled and validated (exhaustive short-input base64 stream), not verified; getrandbits is scripted; "
              "step arguments are assumed well typed.",
-        design="§4 C04",
+        design="§4 C04, §12.4",
+        technique="Lean 4 theorems about an executable model; model tied to the code by source-to-Lean translation (proved equal) and by a "
+                  "model/implementation correspondence check",
     ),
     "C14": dict(
         text="Lean 4 proof over an explicit heap model of the Python list objects: for all operation sequences (view access, settings_map, C2Http "
@@ -152,12 +164,18 @@ CLAIMED = {
              "arithmetic; metadata.info is at most 51 bytes and exactly the longest whole-character prefix, so metadata fits 1024/2048-bit RSA; for "
              "every registration script and every task sequence (known and unknown command ids) the loop invokes exactly the registered handlers "
              "(plus on_<name>, else the catch-alls) once each, in order, leaving task_map unchanged (dispatch_exact, induction with an explicit heap); "
-             "the pre-repair behaviours (list aliasing, unguarded enum lookup, character-level truncation) are proved to violate the statements.",
+             "the pre-repair behaviours (list aliasing, unguarded enum lookup, character-level truncation) are proved to violate the statements. "
+             "The anchored pieces of client.py are translated from their source on every run (tools/gen/py_client.py -> Gen/PyClient.lean): the "
+             "beacon-id, session-key and info statement slices of HttpBeaconClient.run (located by what they assign), register_task, the handle / "
+             "catch_all decorators, get_handlers and the dispatch part of _beacon_loop; each is proved equal to the model for all arguments "
+             "(C19Gen.gen_*, 24 theorems; beacon_id_range, keys_function_of_id, info_fits, dispatch_exact restated for the source text).",
         note="Mersenne Twister and sha256 are parameters; CPython's UTF-8 codec, int and dict semantics are hand-modelled and exercised by dedicated "
              "streams. Float rounding of get_sleep_time is not modelled: the real expression is run on Fractions and the float path is only "
              "band-checked with a 1e-9 tolerance. Handlers are abstract (callable/truthy/raises/responds); get_task, send_callback, time.sleep are stubbed "
              "while the real _beacon_loop runs.",
-        design="§4 C19",
+        design="§4 C19, §12.4",
+        technique="Lean 4 theorems about an executable model; model tied to the code by source-to-Lean translation (proved equal) and by a "
+                  "model/implementation correspondence check",
     ),
     "C12": dict(
         text="Lean proof for ALL byte strings: value_to_string output is the per-byte escape concatenation (repr plus both str.replace calls act "
@@ -198,13 +216,18 @@ CLAIMED = {
              "reported (no_match_metadata_only); recovery of (config, key, settings, offsets) is proved under explicit dominance / no-collision "
              "hypotheses (recover_partial, key_is_candidate, zero_padding_dominates) and periodic keys are recovered up to their root. "
              "payload_checksum is additionally translated from its source text on every run (Gen/PyGuard.lean) and proved equal to the model "
-             "(C17Gen.gen_payload_checksum).",
+             "(C17Gen.gen_payload_checksum); iter_guardrail_configs_with_beacon, find_xor_key_candidates and iter_guardrail_configs are translated "
+             "too (tools/gen/py_guardu.py -> Gen/PyGuardU.lean) and proved equal to the model for every file object, buffer size and mask key "
+             "(C17Gen.gen_*, 20 theorems): only_if_checksum holds for the source text of the selection loop whatever the scan and the candidate "
+             "generator return (gen_only_if_checksum), and for the composition of the three translated functions (gen_only_if_checksum_pipeline).",
         note="Recovery is partial by nature: the full statement is refuted in Lean (recover_full_fails: periodic keys; the weak additive checksum "
              "admits same-length collisions, demonstrated). The XorEncoded view, PE helpers and the ordinary extraction path are parameters. cstruct, "
              "BufferedReader.peek and Counter.most_common are modelled and exercised by dedicated streams; constants come from tools/gen/guardrails.py. "
              "The compiled driver uses csimp-proved fast versions of xor and the Counter insert. Correspondence over all key lengths 2..256 "
              "(thorough), all 15 option subsets, positions, corruptions, plus a builder validated against the real protected sample.",
-        design="§4 C17",
+        design="§4 C17, §12.4",
+        technique="Lean 4 theorems about an executable model; model tied to the code by source-to-Lean translation (proved equal) and by a "
+                  "model/implementation correspondence check",
     ),
     "C18": dict(
         text="Lean-proved for all stages P ++ I whose image has a signed 0 < e_lfanew < maxrange and machine x86/x64, with |P| < maxrange and no "
